@@ -17,7 +17,7 @@
      - npm, nuget, pypi, semver, hex, composer through Support/SelfOracle.v (+ HexSelf.v,
        ComposerSelf.v): a range model asks Compare only about accepted texts, and a preorder
        on the accepted texts extends to one on all texts;
-     - cargo, conan and maven have their own end-to-end theorems.
+     - cargo, conan, gem and maven have their own end-to-end theorems.
    For the ecosystems with "!=" CONVEX carries a hypothesis on the parsed range saying that no
    constraint is "!=" ([conj_only], [no_ne], [convex_cs]); npm's says that the text has no "||"
    (npm has no "!=").
@@ -28,8 +28,8 @@
    Restricted / refuted:
      alpm      EQ holds for pairs that agree on the presence of a pkgrel (the property's own
                exclusion) and FAILS across the two classes (C20_alpm_fails_across_classes), as
-               does CONVEX (C20_alpm_convexity_fails_across_classes); CONVEX within a class is
-               not proved.
+               does CONVEX (C20_alpm_convexity_fails_across_classes); within one class CONVEX
+               holds for every range (C20_alpm_convex_same_class).
      composer  EQ holds for ranges built from comparators only (C20_composer_cmp_only), and for
                all ranges when the two versions also agree on parsed fields and on being spelled
                exactly "1.0b1" (C20_composer_eq; end to end the only hypothesis left is the one
@@ -42,7 +42,13 @@
      conan     EQ for ranges of plain comparators for any total-preorder oracle
                (C20_conan_eq_plain); for ~ and ^ the two versions must also have Compare-equal
                numeric parts - true end to end (C20_conan_self_eq).  CONVEX for one group of
-               plain comparators other than "!=" (C20_conan_convex_comparators).
+               plain comparators other than "!=" for any total-preorder oracle
+               (C20_conan_convex_comparators), and end to end also with ~ and ^
+               (C20_conan_self_convex; the bounds are assumed accepted).
+     gem       EQ for every range end to end (C20_gem_self_eq); for an arbitrary oracle EQ needs,
+               besides congruence on accepted texts, that Compare-equal versions have the same
+               numeric segments (C20_gem_eq), because ~> reads them.  CONVEX for every range
+               without "!=", ~> included (C20_gem_self_convex).
      hex       EQ and CONVEX for ranges whose synthesized ~> bounds did not overflow int64
                ([synth_ok r = true]), also end to end (C20_hex_self_eq / _self_convex).
      pypi      EQ excludes the text-identity operator "===" ([no_arbitrary_eq], as in the
@@ -51,11 +57,7 @@
      maven     EQ holds end to end (C20_maven_self_eq) although Compare is not transitive: it
                only needs that Compare-equal versions compare alike against every bound.
                CONVEX is REFUTED: (,1-5] contains 1-5 and 1-foo but not 1-sp although
-               1-5 < 1-sp < 1-foo (C20_maven_convexity_refuted, finding F-maven-order-cycle).
-   gem: added when its model is merged.
-
-   TODO, not proved (listed again at the end of the file): CONVEX for alpm within a pkgrel
-   class; CONVEX for conan ranges with ~ / ^ . *)
+               1-5 < 1-sp < 1-foo (C20_maven_convexity_refuted, finding F-maven-order-cycle). *)
 
 From Verif.Base Require Import Bytes BytesFacts GoNum Ord.
 From Verif.Eco Require Import RangeCore RangeCoreFacts Iface VLayer VLayerFacts.
@@ -66,7 +68,8 @@ From Verif.Eco.Cargo Require Version VersionFacts Range RangeFacts Entry.
 From Verif.Eco.Composer Require Version VersionFacts Range RangeFacts Entry.
 From Verif.Eco.Conan Require Version VersionFacts Range RangeFacts Entry.
 From Verif.Eco.Cran Require Version VersionFacts Range Entry.
-From Verif.Eco.Debian Require Version VersionFacts Range RangeFacts Entry SpecFacts.
+From Verif.Eco.Debian Require Version VersionFacts Range RangeFacts Entry.
+From Verif.Eco.Gem Require Version VersionFacts Range RangeFacts Entry.
 From Verif.Eco.Gentoo Require Version VersionFacts Range RangeFacts Entry.
 From Verif.Eco.Github Require Version VersionFacts Range RangeFacts Entry.
 From Verif.Eco.Golang Require Version VersionFacts Range RangeFacts Entry.
@@ -77,8 +80,8 @@ From Verif.Eco.Npm Require Version VersionFacts Range RangeFacts Entry.
 From Verif.Eco.Nuget Require Version VersionFacts Range RangeFacts Entry.
 From Verif.Eco.Pypi Require Version VersionFacts Range RangeFacts Entry.
 From Verif.Eco.Rpm Require Version VersionFacts Range RangeFacts Entry.
-From Verif.Eco.Semver Require Version VersionFacts Range RangeFacts Entry SpecFacts.
-From Verif.Properties.Support Require SimpleRops MavenC20 ConvexMore SelfC20 ComposerC20 AlpmC20 HexSelf ComposerSelf.
+From Verif.Eco.Semver Require Version VersionFacts Range RangeFacts Entry.
+From Verif.Properties.Support Require SimpleRops MavenC20 ConvexMore SelfC20 ComposerC20 AlpmC20 HexSelf ComposerSelf GemSupport Squeeze.
 
 
 (* alpine *)
@@ -180,6 +183,20 @@ Theorem C20_alpm_convexity_fails_across_classes :
   rc $">1.0-1" $"1.0" = Some false.
 Proof. exact AlpmC20.alpm_convexity_fails_across_classes. Qed.
 Print Assumptions C20_alpm_convexity_fails_across_classes.
+
+Theorem C20_alpm_convex_same_class :
+  forall (vparse : bytes -> option Alpm.Version.ver) (h : bool) (r : range)
+    (a b c : Alpm.Version.ver),
+  Alpm.Version.c_has_pkgrel (v_core a) = h ->
+  Alpm.Version.c_has_pkgrel (v_core b) = h ->
+  Alpm.Version.c_has_pkgrel (v_core c) = h ->
+  le_c (Alpm.Version.cmp a b) ->
+  le_c (Alpm.Version.cmp b c) ->
+  contains Alpm.Version.ver vparse Alpm.Version.cmp Alpm.Range.cfg r a = true ->
+  contains Alpm.Version.ver vparse Alpm.Version.cmp Alpm.Range.cfg r c = true ->
+  contains Alpm.Version.ver vparse Alpm.Version.cmp Alpm.Range.cfg r b = true.
+Proof. exact AlpmC20.alpm_convex_same_class. Qed.
+Print Assumptions C20_alpm_convex_same_class.
 
 (* apache *)
 
@@ -465,6 +482,21 @@ Theorem C20_conan_convex_comparators :
 Proof. exact ConvexMore.conan_convex. Qed.
 Print Assumptions C20_conan_convex_comparators.
 
+Theorem C20_conan_self_convex :
+  let vok := Conan.RangeFacts.m_vok in       (* = self_vok Conan.Entry.entry, C20_conan_abbrev *)
+  let vcmp := Conan.RangeFacts.m_vcmp in     (* = self_vcmp Conan.Entry.entry *)
+  forall (r : Conan.Range.range) (g : list Conan.Range.constraint) (a b c : bytes),
+  Conan.Range.r_groups r = [g] ->
+  forallb (fun k : Conan.Range.constraint =>
+             (beq (fst k) $"~" || beq (fst k) $"^" || convex_op (sem6 (fst k)))   (* no "!=" *)
+             && vok (snd k)) g = true ->
+  vok a = true -> vok b = true -> vok c = true ->
+  le_c (vcmp a b) -> le_c (vcmp b c) ->
+  Conan.Range.contains vcmp r a = true -> Conan.Range.contains vcmp r c = true ->
+  Conan.Range.contains vcmp r b = true.
+Proof. exact Squeeze.conan_self_convex. Qed.
+Print Assumptions C20_conan_self_convex.
+
 (* cran *)
 
 Theorem C20_cran_eq :
@@ -575,6 +607,67 @@ Proof.
            (SimpleRops.self_tpo _ _ _ _ _ _ Debian.VersionFacts.cmp_core_tp)).
 Qed.
 Print Assumptions C20_debian_self_convex.
+
+(* gem *)
+
+Theorem C20_gem_eq :
+  forall (vok : bytes -> bool) (vcmp : bytes -> bytes -> comparison),
+  (forall a b c : bytes,
+   vok a = true -> vok b = true -> vok c = true -> vcmp a b = Eq -> vcmp a c = vcmp b c) ->
+  (forall a b : bytes,
+   vok a = true ->
+   vok b = true ->
+   vcmp a b = Eq ->
+   forall (n : nat) (cs : list Z),
+   Gem.Range.prefix_eq n (Gem.Range.numeric_of a) cs = Gem.Range.prefix_eq n (Gem.Range.numeric_of b) cs) ->
+  forall (r : Gem.Range.range) (a b : bytes),
+  vok a = true ->
+  vok b = true ->
+  vcmp a b = Eq -> Gem.Range.contains vok vcmp r a = Gem.Range.contains vok vcmp r b.
+Proof. exact Gem.RangeFacts.gem_c20. Qed.
+Print Assumptions C20_gem_eq.
+
+Theorem C20_gem_self_eq_parsed :
+  forall (r : Gem.Range.range) (a b : bytes),
+  Gem.RangeFacts.self_ok a = true ->
+  Gem.RangeFacts.self_ok b = true ->
+  Gem.RangeFacts.self_cmp a b = Eq ->
+  Gem.Range.contains Gem.RangeFacts.self_ok Gem.RangeFacts.self_cmp r a =
+  Gem.Range.contains Gem.RangeFacts.self_ok Gem.RangeFacts.self_cmp r b.
+Proof. exact Gem.RangeFacts.gem_c20_self. Qed.
+Print Assumptions C20_gem_self_eq_parsed.
+
+Theorem C20_gem_self_eq :
+  forall r a b : bytes,
+  Gem.RangeFacts.self_ok a = true ->
+  Gem.RangeFacts.self_ok b = true ->
+  Gem.RangeFacts.self_cmp a b = Eq ->
+  Gem.Range.r_contains Gem.RangeFacts.self_ok Gem.RangeFacts.self_cmp r a =
+  Gem.Range.r_contains Gem.RangeFacts.self_ok Gem.RangeFacts.self_cmp r b.
+Proof. exact Gem.RangeFacts.gem_c20_self_text. Qed.
+Print Assumptions C20_gem_self_eq.
+
+Theorem C20_gem_self_convex :
+  let vok := self_vok Gem.Entry.entry in
+  let vcmp := self_vcmp Gem.Entry.entry in
+  forall (rg : bytes) (r : range) (a b c : bytes),
+  Gem.Range.parse_range vok rg = Some r ->
+  forallb (fun k : bytes * bytes =>
+             beq (fst k) Gem.Range.pess || convex_op (sem6 (fst k))) (r_cs r) = true ->   (* no "!=" *)
+  vok a = true -> vok b = true -> vok c = true ->
+  le_c (vcmp a b) -> le_c (vcmp b c) ->
+  r_contains Gem.Entry.r vok vcmp rg a = Some true ->
+  r_contains Gem.Entry.r vok vcmp rg c = Some true ->
+  r_contains Gem.Entry.r vok vcmp rg b = Some true.
+Proof. intros vok vcmp rg r a b c. exact (Squeeze.gem_self_convex_all rg r a b c). Qed.
+Print Assumptions C20_gem_self_convex.
+
+Theorem C20_gem_abbrev :
+  Gem.RangeFacts.self_ok = self_vok Gem.Entry.entry /\
+  Gem.RangeFacts.self_cmp = self_vcmp Gem.Entry.entry /\
+  (forall vok vcmp r v, r_contains Gem.Entry.r vok vcmp r v = Gem.Range.r_contains vok vcmp r v).
+Proof. repeat split. Qed.
+Print Assumptions C20_gem_abbrev.
 
 (* gentoo *)
 
@@ -1236,8 +1329,4 @@ Proof.
 Qed.
 Print Assumptions C20_semver_self_convex.
 
-(* TODO, not proved:
-   - alpm CONVEX for three versions of one pkgrel class (across the classes it is refuted above; the
-     bounds of a range may lie in the other class, where Compare is a preorder only class-wise);
-   - conan CONVEX for groups containing ~ or ^ (they are intervals on numeric parts only, C05.v);
-   - gem (model not merged). *)
+(* TODO, not proved: nothing; all 20 ecosystems are covered (restrictions and refutations as listed in the header). *)
